@@ -340,6 +340,16 @@ func TestVerifC13Decode(t *testing.T) {
 			out.Stat("decode.single", 1)
 			if pt.foreign {
 				out.Stat("decode.single.foreign", 1)
+				if pt.d.RemGuard && len(reps) > 0 {
+					// a level guarded by remainNotMapHookFunc: compared with its own descriptor (regression
+					// stream of the repaired C13-TELEMETRY-REMAIN-PANIC)
+					var ob []string
+					for _, k := range reps[len(reps)-1].keys {
+						ob = append(ob, vPair("[]", vStr(k)))
+					}
+					out.Case(true, "(CDec true "+vStr("remain-level/"+pt.d.Type)+" (CMap [("+vStr(unk)+", CScalar "+vStr("1")+")]) "+vList(ob)+")")
+					out.Stat("decode.single.remain-level", 1)
+				}
 				continue
 			}
 			if !okPaths {
